@@ -264,6 +264,7 @@ def rule_transcript(ctx):
             W = None
             st = 0
             hashed = None
+            hashed_ast = None
             for a_ in seq:
                 t_ = norm(a_)
                 if st == 0 and isinstance(a_, ast.Assign) and norm(a_.value) == "Writer()" and isinstance(a_.targets[0], ast.Name):
@@ -272,25 +273,44 @@ def rule_transcript(ctx):
                     st = 2
                 elif st == 2 and isinstance(a_, ast.Expr) and isinstance(a_.value, ast.Call) \
                         and norm(a_.value.func) == "%s.addVarSeq" % W and [norm(x) for x in a_.value.args[1:]] == ["1", "3"]:
-                    hashed, st = norm(a_.value.args[0]), 3
+                    hashed, hashed_ast, st = norm(a_.value.args[0]), a_.value.args[0], 3
                 elif st == 3 and t_ == "%s.update(%s.bytes)" % (T, W):
                     st = 4
             installed = T == "self._handshake_hash" or any(
                 isinstance(a_, ast.Assign) and norm(a_) == "self._handshake_hash = %s" % T for a_ in seq)
-            ok = st == 4 and installed and re.match(r"client_hello_hash(\.digest\(prf_name\))?$", hashed or "")
+            # what is hashed: a digest of the transcript as it stood before the restart - followed through
+            # the locals it was stored in (whatever they are called), each defined before the restart
+            chain_defs, origin = [], None
+            e_ = hashed_ast
+            for _ in range(4):
+                if e_ is None:
+                    break
+                names_ = [x for x in ast.walk(e_) if isinstance(x, ast.Name) and x.id not in ("self", "prf_name")]
+                if "self._handshake_hash" in norm(e_):
+                    origin = e_
+                    break
+                if len(names_) != 1:
+                    break
+                ds_ = [n for n in gq_.nodes if n.kind == "stmt" and isinstance(n.ast, ast.Assign)
+                       and any(isinstance(t, ast.Name) and t.id == names_[0].id for t in n.ast.targets)]
+                if len(ds_) != 1:
+                    break
+                chain_defs.append(ds_[0])
+                e_ = ds_[0].ast.value
+            after = gq_.reach(gq_.normal_succ(rs[0]))
+            walked = " <- ".join([hashed or "?"] + [norm(d.ast.value) for d in chain_defs])
+            ok = st == 4 and installed and origin is not None and ".digest(" in walked \
+                and not any(d.id in after for d in chain_defs) \
+                and (chain_defs or False)
         ctx.check(R, bool(ok), f.qname, "HRR transcript restart = message_hash || len || Hash(ClientHello1)",
                   "the synthetic message_hash transcript after HelloRetryRequest is not built as "
                   "message_hash(254) || 3-byte length || Hash(ClientHello1)", f.loc(rs[0].ast) if rs else f.loc())
         # the hash of ClientHello1 must be taken from the transcript before it is replaced
         if rs:
-            defs = [n for n in gq_.nodes if n.kind == "stmt" and isinstance(n.ast, ast.Assign)
-                    and any(attr_chain(t) == "client_hello_hash" for t in n.ast.targets)]
-            okd = bool(defs) and all("self._handshake_hash" in norm(d.ast.value) for d in defs)
-            seen = gq_.reach(gq_.normal_succ(rs[0]))
-            okd = okd and not any(d.id in seen for d in defs)
+            okd = bool(rs) and origin is not None and bool(chain_defs) and not any(d.id in after for d in chain_defs)
             ctx.check(R, okd, f.qname, "Hash(ClientHello1) taken before the restart",
-                      "client_hello_hash must be derived from the running transcript before it is reset",
-                      f.loc(rs[0].ast))
+                      "the hash of the first ClientHello must be derived from the running transcript before it "
+                      "is reset (found: %s)" % walked, f.loc(rs[0].ast))
 
 
 def rule_schedule(ctx):
@@ -409,10 +429,22 @@ def rule_sentinel(ctx):
     tests = [t for t in gc.nodes if t.kind == "test" and "DOWNGRADE_SENTINEL" in norm(t.expr)]
     eff = effective_tests(gc, tests, sinks)
     srcs = consumes_of(gc, "_clientGetServerHello")
-    for nm, need in (("TLS_1_2_DOWNGRADE_SENTINEL", ["settings.maxVersion > (3, 3)", "self.version <= (3, 3)"]),
-                     ("TLS_1_1_DOWNGRADE_SENTINEL", ["settings.maxVersion == (3, 3)", "self.version < (3, 3)"])):
-        mine = [t for t in eff if nm in norm(t.expr) and all(x in norm(t.expr) for x in need)
-                and "serverHello.random[-8:] == " + nm in norm(t.expr)]
+    # what the client's checks mean, over boundary values (condeval.outcomes; nothing is run)
+    S12, S11 = b"DOWNGRD\x01", b"DOWNGRD\x00"
+    spec_rows(ctx, R, TLSCONN + "_handshakeClientAsyncHelper", [
+        dict(what="client refuses a ServerHello.random carrying a downgrade sentinel below its maximum version",
+             dom={"settings.maxVersion": [(3, 2), (3, 3), (3, 4)], "self.version": [(3, 1), (3, 2), (3, 3), (3, 4)],
+                  "serverHello.random[-8:]": [S12, S11, b"notmarkd"], "TLS_1_2_DOWNGRADE_SENTINEL": [S12],
+                  "TLS_1_1_DOWNGRADE_SENTINEL": [S11]},
+             when=lambda e: e["self.version"] <= e["settings.maxVersion"],
+             abort=lambda e: (e["settings.maxVersion"] > (3, 3) and e["self.version"] <= (3, 3)
+                              and e["serverHello.random[-8:]"] in (S12, S11))
+             or (e["settings.maxVersion"] == (3, 3) and e["self.version"] < (3, 3)
+                 and e["serverHello.random[-8:]"] == S11),
+             msg="a TLS 1.3 capable client must refuse the TLS 1.2 / TLS 1.1 sentinels below TLS 1.3, a TLS 1.2 "
+                 "client the TLS 1.1 sentinel below TLS 1.2 (RFC 8446 4.1.3), and nothing else")])
+    for nm in ("TLS_1_2_DOWNGRADE_SENTINEL", "TLS_1_1_DOWNGRADE_SENTINEL"):
+        mine = [t for t in eff if nm in norm(t.expr)]
         if not srcs:
             raise AnalysisError("C04.SENTINEL: _clientGetServerHello consumption not found")
         # the gate must lie on every path from ServerHello to key exchange / resumption / completion
@@ -439,6 +471,9 @@ def rule_scsv(ctx):
     dead = [m for t in eff for m in g.nodes if m.kind == "noreturn" and m.line > t.line and m.line < t.line + 6]
     ctx.check(R, any(senderror_desc(m) == "inappropriate_fallback" for m in dead), fi.qname,
               "alert of the SCSV gate", "the SCSV gate must send inappropriate_fallback", fi.loc())
+    # the caller's sendFallbackSCSV reaches the hello builder unchanged
+    from . import c19
+    c19.copy_preserves(ctx, R, only={"sendFallbackSCSV"})
     # client appends the SCSV iff sendFallbackSCSV
     fc = ctx.index.func(TLSCONN + "_clientSendClientHello")
     ok = False
